@@ -51,7 +51,10 @@ def h_protocol(ctx: Any, code: str, n: int, depth: int, stack: int = 200, split_
     def sync_boards() -> None:
         nonlocal actions, boards_seen
         # one separator per STREET, however many dealing calls the street took
-        nb = len({st_i for st_i in street_of_board_op})
+        if split_flop:
+            nb = len({st_i for st_i in street_of_board_op})
+        else:
+            nb = sum(1 for o in st.operations if type(o).__name__ == 'BoardDealing')
         while boards_seen < nb:
             actions += '/'
             boards_seen += 1
@@ -101,8 +104,6 @@ def h_protocol(ctx: Any, code: str, n: int, depth: int, stack: int = 200, split_
                     shown[idx] = ''.join(repr(c) for c in op.hole_cards)
         else:
             ctx.fail('stuck')
-    if not split_flop:
-        street_of_board_op = list(range(len([o for o in st.operations if type(o).__name__ == 'BoardDealing'])))
     sync_boards()
     dealt = {}
     for op in st.operations:
